@@ -123,7 +123,7 @@ class IllFormed(Exception):
     """the history violates a precondition of the lifecycle model (not a verdict)"""
 
 
-SETUP_OPS = {"hex", "chop", "patch", "zone", "project_side", "geometry", "shape", "shape_chop", "shape_patch"}
+SETUP_OPS = {"hex", "chop", "patch", "zone", "project_side", "geometry", "shape", "shape_chop", "shape_patch", "zoo", "sub_chop", "sub_patch"}
 
 
 class Model:
@@ -266,12 +266,12 @@ class Model:
         ann: Dict[str, Any] = {}
         if getattr(self, "crashed_backport", False) and op != "backport":
             raise IllFormed("after a backport interrupted in its first phase the only recovery is to backport again")
-        if op == "shape":
+        if op in ("shape", "zoo"):
             self.shapes[st["name"]] = {"ops": [st], "n_ops": st["n_ops"], "patch_names": set(), "moves": [],
                                        "points": {k: list(v) for k, v in (st.get("named_points") or {}).items()}}
-        elif op in ("shape_chop", "shape_patch"):
+        elif op in ("shape_chop", "shape_patch", "sub_chop", "sub_patch"):
             self.shapes[st["target"]]["ops"].append(st)
-            if op == "shape_patch":
+            if op in ("shape_patch", "sub_patch"):
                 self.shapes[st["target"]]["patch_names"].add(st["name"])
             if self.assembled and st["target"] in self.added:
                 self.stale_reasons.add("attr")
@@ -523,24 +523,44 @@ def gen_history(seed: int, faults: str) -> Dict[str, Any]:
     if rs.chance(0.15):
         # one multi-operation entity, far away from the lattice (never moved, may lose an operation)
         shape_name = "s0"
-        kind = rs.pick(["cylinder", "ring", "hemisphere"])
+        kind = rs.pick(["cylinder", "ring", "hemisphere", "zoo", "zoo"])
         o = [0.0, 40.0, 0.0]
-        if kind == "cylinder":
+        zoo_ent = None
+        if kind == "zoo":
+            # one of the less common multi-operation entities; every operation chopped itself (plain counts that agree
+            # within each edge family), so that deleted operations and merged patches cannot leave a direction undefined
+            from . import zoo
+
+            zoo_ent = zoo.entity_with_chops(rs.sub("zoo"), 0, mode="complete", offset=[0.0, 40.0, 0.0], sources="all",
+                                            kinds=["elbow", "semicylinder", "revolvedring", "rstack", "estack", "extruded", "revolved", "lofted"])
+            if zoo_ent[3] is None or zoo_ent[4]["coincident_spread"] > 1e-11:
+                zoo_ent, kind = None, "cylinder"
+        if zoo_ent is not None:
+            zops, zchops, _, zsnap, _ = zoo_ent
+            do(dict(zops[0], n_ops=len(zsnap)))
+            for ch in zchops:
+                do(ch)
+            for j in range(len(zsnap)):
+                for side in hexref.SIDES:
+                    if rs.chance(0.1):
+                        do({"op": "sub_patch", "target": "s0", "index": j, "side": side, "name": rs.pick(NAMES)})
+        elif kind == "cylinder":
             st = {"op": "shape", "name": "s0", "kind": "cylinder", "args": {"p1": o, "p2": [0, 40, 1.5], "r": [1.0, 40, 0]}}
         elif kind == "ring":
             st = {"op": "shape", "name": "s0", "kind": "ring", "args": {"p1": o, "p2": [0, 40, 1.0], "r_out": [1.0, 40, 0], "r_in": 0.5, "n": rs.pick([4, 8])}}
         else:
             st = {"op": "shape", "name": "s0", "kind": "hemisphere", "args": {"c": o, "r": [1.0, 40, 0], "n": [0, 0, 1]}}
-        st["n_ops"] = _count_operations(st)
-        if kind in ("hemisphere", "cylinder"):
-            st["named_points"] = {"c": list(o), "r": [1.0, 40.0, 0.0]}
-        do(st)
-        for w in ("axial", "radial", "tangential"):
-            do({"op": "shape_chop", "target": "s0", "which": w, "args": {"count": rs.randint(2, 4)}})
-        if rs.chance(0.6):
-            do({"op": "shape_patch", "target": "s0", "which": "outer", "name": rs.pick(NAMES)})
-        if rs.chance(0.4):
-            do({"op": "shape_patch", "target": "s0", "which": "start", "name": rs.pick(NAMES)})
+        if zoo_ent is None:
+            st["n_ops"] = _count_operations(st)
+            if kind in ("hemisphere", "cylinder"):
+                st["named_points"] = {"c": list(o), "r": [1.0, 40.0, 0.0]}
+            do(st)
+            for w in ("axial", "radial", "tangential"):
+                do({"op": "shape_chop", "target": "s0", "which": w, "args": {"count": rs.randint(2, 4)}})
+            if rs.chance(0.6):
+                do({"op": "shape_patch", "target": "s0", "which": "outer", "name": rs.pick(NAMES)})
+            if rs.chance(0.4):
+                do({"op": "shape_patch", "target": "s0", "which": "start", "name": rs.pick(NAMES)})
         names = names + ["s0"]
     order = rs.shuffled(names)
     first = rs.randint(1, len(names))
@@ -989,6 +1009,10 @@ def run_history(hist: Dict[str, Any]) -> Dict[str, Any]:
                             bad("backport-wrong-operation-points", f"after backport, {n} corner {c} is at {got[c]}, expected {pts[c]}",
                                 key="backport-wrong-operation-points" + (":deleted-op" if n in ann["deleted"] else (":with-deletions" if ann["deleted"] else "")), i=i)
                             break
+                if op == "zoo":
+                    stats["histories_with_zoo_entity:" + st["kind"]] = 1
+                if op == "add_geometry":
+                    stats["geometries_declared_mid_history"] = stats.get("geometries_declared_mid_history", 0) + 1
                 if op == "clear":
                     stats["clears"] += 1
                 if op == "delete":
